@@ -58,7 +58,8 @@ UNIT = Unit(
         Fn("src/state/melmint.rs", "preseal_melmint", mode="assume", **mm_preseal()),
         Fn(S, "apply_tip_909", impl="UnsealedState", mode="assume", **st_tip909()),
         Fn(S, "tip_909", impl="UnsealedState", home="C01", implicit_props=("C09",), **st_tip(950000)),
-        TypeItem("src/tip_heights.rs", "const", "TIP_909_HEIGHT"),
+        Fn(S, "tip_902", impl="UnsealedState", home="C16", implicit_props=("C09",), **st_tip(180000)),
+        TypeItem("src/tip_heights.rs", "const", "TIP_909_HEIGHT"), TypeItem("src/tip_heights.rs", "const", "TIP_902_HEIGHT"),
         Fn(SM, "val_iter", impl="SmtMapping", mode="assume", wrap=SMT_WRAP, sig_subst=[("impl Iterator<Item = V> + '_", "Vec<V>")], **smt_val_iter()),
         Fn(S, "seal", impl="UnsealedState", home="C06", implicit_props=("C09", "C06", "C16"), rewrites=[("MUTSELF",)], **st_seal_full(),
            injects=[Inject(("after", "this = crate::melmint::preseal_melmint(this);"), "proof { lemma_two_pools(this); }"),
